@@ -1,11 +1,15 @@
 /-
-Helper lemmas about one static-drift round (`Karp/Model/StaticPool.lean`): every command that does not return
-early gives its reserved node slot back.
+Helper lemmas about static-drift passes (`Karp/Model/StaticPool.lean`), for any pool name and any number of pools:
+`ComputeCommands` never reserves more slots for a pool than the pool has candidates as long as the pool's own candidate
+count is one of the arguments of the cap; every command gives its reserved node slot back; nothing a pool does touches
+another pool's reserved counter.
 -/
 import Karp.Proofs.PoolStateLemmas
 import Karp.Model.StaticPool
 namespace Karp.StaticPool
 open Karp.PoolState
+
+/-! ### the reserved counters only ever gain entries during a pass -/
 
 theorem limits_mark_isSome (s : State) (np' nc : Name) (ph : Phase) :
     ((mark s np' nc ph).limits np').isSome = true := by
@@ -22,123 +26,409 @@ theorem limits_ensure_other_isSome (s : State) (a x : Name) (h : (s.limits x).is
     · rfl
     · exact h
 
-theorem limits_update_isSome (s : State) (nc : Name) (m : Bool) (_h : (s.limits np).isSome = true) :
-    ((update s np nc m).limits np).isSome = true := by
-  unfold update
-  simp only [np, Nat.one_ne_zero, if_false]
-  cases m
-  · exact limits_mark_isSome _ 1 nc .active
-  · exact limits_mark_isSome _ 1 nc .deleting
+theorem limits_mark_mono (s : State) (p nc x : Name) (ph : Phase) (h : (s.limits x).isSome = true) :
+    ((mark s p nc ph).limits x).isSome = true := by
+  cases ph <;> simp only [mark, markActive, markDeleting, markPending] <;> exact limits_ensure_other_isSome s p x h
 
-theorem reservedOf_update (s : State) (nc x : Name) (m : Bool) : reservedOf (update s np nc m) x = reservedOf s x := by
-  unfold update
-  simp only [np, Nat.one_ne_zero, if_false]
-  cases m
-  · have := reservedOf_mark (setMapping s 1 nc) 1 nc x .active
-    simpa [mark] using this
-  · have := reservedOf_mark (setMapping s 1 nc) 1 nc x .deleting
-    simpa [mark] using this
+theorem limits_setMapping_mono (s : State) (p nc x : Name) (h : (s.limits x).isSome = true) :
+    ((setMapping s p nc).limits x).isSome = true := by
+  unfold setMapping
+  split
+  · exact h
+  · exact limits_ensure_other_isSome s p x h
 
-theorem release_some (s : State) (h : (s.limits np).isSome = true) :
-    ∃ s', release .asIs s np 1 = some s' ∧ (s'.limits np).isSome = true ∧
-      reservedOf s' np = (if reservedOf s np - 1 < 0 then 0 else reservedOf s np - 1) := by
+theorem limits_update_mono (s : State) (p nc x : Name) (m : Bool) (h : (s.limits x).isSome = true) :
+    ((update s p nc m).limits x).isSome = true := by
+  unfold update
+  split
+  · exact h
+  · cases m
+    · simp only [Bool.false_eq_true, if_false]
+      exact limits_mark_mono _ p nc x .active (limits_setMapping_mono s p nc x h)
+    · simp only [if_true]
+      exact limits_mark_mono _ p nc x .deleting (limits_setMapping_mono s p nc x h)
+
+theorem reservedOf_update (s : State) (p nc x : Name) (m : Bool) : reservedOf (update s p nc m) x = reservedOf s x := by
+  unfold update
+  split
+  · rfl
+  · cases m
+    · simp only [Bool.false_eq_true, if_false]
+      have := reservedOf_mark (setMapping s p nc) p nc x .active
+      simpa [mark] using this
+    · simp only [if_true]
+      have := reservedOf_mark (setMapping s p nc) p nc x .deleting
+      simpa [mark] using this
+
+/-- `ReleaseNodeCount(p, 1)` on an existing counter: no panic, only `p`'s counter moves -/
+theorem release_some (p : Name) (s : State) (h : (s.limits p).isSome = true) :
+    ∃ s', release .asIs s p 1 = some s' ∧ (∀ x, (s.limits x).isSome = true → (s'.limits x).isSome = true) ∧
+      (∀ x, reservedOf s' x =
+        if x = p then (if reservedOf s p - 1 < 0 then 0 else reservedOf s p - 1) else reservedOf s x) := by
   unfold release
-  cases hl : s.limits np with
+  cases hl : s.limits p with
   | none => simp [hl] at h
   | some cur =>
-    refine ⟨_, rfl, by simp, ?_⟩
-    simp [reservedOf, hl]
+    refine ⟨_, rfl, ?_, ?_⟩
+    · intro x hx
+      simp only [upd]
+      split
+      · rfl
+      · exact hx
+    · intro x
+      by_cases hx : x = p
+      · subst hx; simp [reservedOf, hl]
+      · simp [reservedOf, upd, hx]
 
-/-- a command that does not return early gives its slot back -/
-theorem startCommand_releases (s : State) (cand new : Nat) (createOk : Bool) (_h : (s.limits np).isSome = true)
-    (hpos : 1 ≤ reservedOf s np) :
-    ∃ s' ok made, startCommand s cand new false createOk = some (s', ok, made) ∧ (s'.limits np).isSome = true ∧
-      reservedOf s' np = reservedOf s np - 1 := by
-  unfold startCommand
-  simp only [Bool.false_eq_true, if_false]
-  have h1 : ((markPending s np cand).limits np).isSome = true := limits_mark_isSome s np cand .pending
-  have r1 : reservedOf (markPending s np cand) np = reservedOf s np := by
-    have := reservedOf_mark s np cand np .pending; simpa [mark] using this
-  cases createOk with
-  | false =>
-    simp only [Bool.false_eq_true, if_false]
-    obtain ⟨s3, hs3, hi3, hr3⟩ := release_some _ h1
+/-- a command gives its slot back: always when it gets as far as `createReplacementNodeClaims`, and on the early
+    return (`lost`) when the source releases there -/
+theorem startCommandP_releases (p : Name) (s : State) (cand new : Nat) (lost createOk : Bool)
+    (hE : lost = true → Karp.Gen.C03Pool.startCommandReleasesEarly = true)
+    (h : (s.limits p).isSome = true) (hpos : 1 ≤ reservedOf s p) :
+    ∃ s' ok made, startCommandP p s cand new lost createOk = some (s', ok, made) ∧
+      (∀ x, (s.limits x).isSome = true → (s'.limits x).isSome = true) ∧
+      (∀ x, reservedOf s' x = if x = p then reservedOf s p - 1 else reservedOf s x) := by
+  unfold startCommandP
+  cases lost with
+  | true =>
+    simp only [if_true, hE rfl]
+    obtain ⟨s3, hs3, hi3, hr3⟩ := release_some p s h
     rw [hs3]
     refine ⟨s3, false, false, rfl, hi3, ?_⟩
-    rw [hr3, r1]; split <;> omega
-  | true =>
-    simp only [if_true]
-    have h2 := limits_update_isSome (markPending s np cand) new false h1
-    obtain ⟨s3, hs3, hi3, hr3⟩ := release_some _ h2
-    rw [hs3]
-    refine ⟨markDeleting s3 np cand, true, true, rfl, ?_, ?_⟩
-    · exact limits_mark_isSome s3 np cand .deleting
-    · have := reservedOf_mark s3 np cand np .deleting
-      simp only [mark] at this
-      rw [this, hr3, reservedOf_update, r1]; split <;> omega
+    intro x; rw [hr3 x]; split
+    · split <;> omega
+    · rfl
+  | false =>
+    simp only [Bool.false_eq_true, if_false]
+    have h1 : ((markPending s p cand).limits p).isSome = true := limits_mark_isSome s p cand .pending
+    have m1 : ∀ x, (s.limits x).isSome = true → ((markPending s p cand).limits x).isSome = true :=
+      fun x hx => limits_mark_mono s p cand x .pending hx
+    have r1 : ∀ x, reservedOf (markPending s p cand) x = reservedOf s x := by
+      intro x; have := reservedOf_mark s p cand x .pending; simpa [mark] using this
+    cases createOk with
+    | false =>
+      simp only [Bool.false_eq_true, if_false]
+      obtain ⟨s3, hs3, hi3, hr3⟩ := release_some p _ h1
+      rw [hs3]
+      refine ⟨s3, false, false, rfl, fun x hx => hi3 x (m1 x hx), ?_⟩
+      intro x; rw [hr3 x, r1, r1]; split
+      · split <;> omega
+      · rfl
+    | true =>
+      simp only [if_true]
+      have h2 := limits_update_mono (markPending s p cand) p new p false h1
+      obtain ⟨s3, hs3, hi3, hr3⟩ := release_some p _ h2
+      rw [hs3]
+      refine ⟨markDeleting s3 p cand, true, true, rfl, ?_, ?_⟩
+      · intro x hx
+        exact limits_mark_mono s3 p cand x .deleting (hi3 x (limits_update_mono _ p new x false (m1 x hx)))
+      · intro x
+        have := reservedOf_mark s3 p cand x .deleting
+        simp only [mark] at this
+        rw [this, hr3 x, reservedOf_update, reservedOf_update, r1, r1]; split
+        · split <;> omega
+        · rfl
 
-theorem driftGo_releases (g next : Nat) (createFail : List Nat) :
+theorem contains_ne_nil (l : List Nat) (i : Nat) (h : l.contains i = true) : l ≠ [] := by
+  intro hl; subst hl; simp at h
+
+/-- all commands of one pool: nothing panics, the pool's counter goes down by one per command, no other counter moves -/
+theorem driftGoP_releases (p g next : Nat) (lost createFail : List Nat)
+    (hE : lost ≠ [] → Karp.Gen.C03Pool.startCommandReleasesEarly = true) :
     ∀ (todo : List Nat) (s : State) (i creates created started failed : Nat),
-      (s.limits np).isSome = true → (todo.length : Int) ≤ reservedOf s np →
-      (driftGo g [] createFail next s i creates created started failed todo).panicked = false ∧
-      reservedOf (driftGo g [] createFail next s i creates created started failed todo).st np
-        = reservedOf s np - todo.length := by
+      ((s.limits p).isSome = true ∨ todo = []) → (todo.length : Int) ≤ reservedOf s p →
+      (driftGoP p g lost createFail next s i creates created started failed todo).panicked = false ∧
+      (∀ x, (s.limits x).isSome = true →
+        ((driftGoP p g lost createFail next s i creates created started failed todo).st.limits x).isSome = true) ∧
+      (∀ x, reservedOf (driftGoP p g lost createFail next s i creates created started failed todo).st x
+        = if x = p then reservedOf s p - todo.length else reservedOf s x) := by
   intro todo
   induction todo with
-  | nil => intro s i c cr st f _ _; simp [driftGo]
+  | nil =>
+    intro s i c cr st f _ _
+    refine ⟨rfl, fun x hx => hx, ?_⟩
+    intro x; simp only [driftGoP, List.length_nil]; split
+    · rename_i hx; subst hx; simp
+    · rfl
   | cons cand rest ih =>
     intro s i c cr st f h hlen
+    have h : (s.limits p).isSome = true := by
+      rcases h with h | h
+      · exact h
+      · cases h
     simp only [List.length_cons] at hlen
-    have hpos : 1 ≤ reservedOf s np := by omega
-    obtain ⟨s', ok, made, hs, hi, hr⟩ := startCommand_releases s cand (next + cr) (!createFail.contains c) h hpos
-    simp only [driftGo, List.contains_nil, hs]
-    have := ih s' (i + 1) (c + 1) (if made then cr + 1 else cr) (if ok then st + 1 else st) (if ok then f else f + 1) hi
-      (by rw [hr]; omega)
-    simp only [Bool.false_eq_true, if_false] at this ⊢
-    refine ⟨this.1, ?_⟩
-    rw [this.2, hr]; simp only [List.length_cons]; omega
+    have hpos : 1 ≤ reservedOf s p := by omega
+    obtain ⟨s', ok, made, hs, hi, hr⟩ := startCommandP_releases p s cand (next + cr) (lost.contains i) (!createFail.contains c)
+      (fun hl => hE (contains_ne_nil lost i hl)) h hpos
+    simp only [driftGoP, hs]
+    have hrp : reservedOf s' p = reservedOf s p - 1 := by rw [hr p]; simp
+    have := ih s' (i + 1) (if lost.contains i = true then c else c + 1) (if made = true then cr + 1 else cr)
+      (if ok = true then st + 1 else st) (if ok = true then f else f + 1) (Or.inl (hi p h)) (by rw [hrp]; omega)
+    refine ⟨this.1, fun x hx => this.2.1 x (hi x hx), ?_⟩
+    intro x
+    rw [this.2.2 x]
+    by_cases hx : x = p
+    · simp only [hx, if_true, hrp, List.length_cons]; omega
+    · simp only [hx, if_false]; rw [hr x]; simp [hx]
 
+/-! ### `ReserveNodeCount` -/
 
-theorem limits_reserve_isSome (s : State) (limit wanted : Int) :
-    ((reserve s np limit wanted).1.limits np).isSome = true := by
+theorem limits_reserve_isSome (p : Name) (s : State) (limit wanted : Int) :
+    ((reserve s p limit wanted).1.limits p).isSome = true := by
   unfold reserve
   simp only
   split
-  · exact limits_ensure_isSome s np
+  · exact limits_ensure_isSome s p
   · simp
 
-theorem reserve_grant_bounds (s : State) (limit wanted : Int) (hw : 0 ≤ wanted) :
-    0 ≤ (reserve s np limit wanted).2 ∧ (reserve s np limit wanted).2 ≤ wanted := by
+theorem limits_reserve_mono (p : Name) (s : State) (limit wanted : Int) (x : Name) (h : (s.limits x).isSome = true) :
+    ((reserve s p limit wanted).1.limits x).isSome = true := by
+  unfold reserve
+  simp only
+  split
+  · exact limits_ensure_other_isSome s p x h
+  · simp only [upd]
+    split
+    · rfl
+    · exact limits_ensure_other_isSome s p x h
+
+theorem reserve_grant_bounds (p : Name) (s : State) (limit wanted : Int) (hw : 0 ≤ wanted) :
+    0 ≤ (reserve s p limit wanted).2 ∧ (reserve s p limit wanted).2 ≤ wanted := by
   unfold reserve
   simp only
   split
   · exact ⟨Int.le_refl 0, hw⟩
   · split <;> constructor <;> omega
 
-/-- a drift round in which no `StartCommand` returns early: nothing panics and the reserved counter is back where it was -/
-theorem driftRound_gives_back (s : State) (replicas : Int) (limit : Option Int) (budget : Nat) (cands createFail : List Nat)
+/-! ### the cap on the drifts of a pool -/
+
+theorem foldl_min_le_init (f : Nat → Nat) (l : List Nat) (m : Nat) :
+    l.foldl (fun m x => min m (f x)) m ≤ m := by
+  induction l generalizing m with
+  | nil => exact Nat.le_refl _
+  | cons a t ih =>
+    simp only [List.foldl_cons]
+    exact Nat.le_trans (ih _) (Nat.min_le_left _ _)
+
+theorem foldl_min_le_mem (f : Nat → Nat) (l : List Nat) (m x : Nat) (hx : x ∈ l) :
+    l.foldl (fun m x => min m (f x)) m ≤ f x := by
+  induction l generalizing m with
+  | nil => cases hx
+  | cons a t ih =>
+    simp only [List.foldl_cons]
+    rcases List.mem_cons.mp hx with h | h
+    · subst h
+      exact Nat.le_trans (foldl_min_le_init f t _) (Nat.min_le_right _ _)
+    · exact ih _ h
+
+/-- a cap that has the pool's own candidate count among its arguments never exceeds it -/
+theorem driftCap_le_own (args : List Nat) (budget own all : Nat) (h : 1 ∈ args) : driftCap args budget own all ≤ own := by
+  cases args with
+  | nil => cases h
+  | cons a t =>
+    simp only [driftCap]
+    rcases List.mem_cons.mp h with h1 | h1
+    · subst h1
+      exact foldl_min_le_init _ t _
+    · exact foldl_min_le_mem (capArg budget own all) t _ 1 h1
+
+/-- … and never the pool's budget when that is among them -/
+theorem driftCap_le_budget (args : List Nat) (budget own all : Nat) (h : 0 ∈ args) : driftCap args budget own all ≤ budget := by
+  cases args with
+  | nil => cases h
+  | cons a t =>
+    simp only [driftCap]
+    rcases List.mem_cons.mp h with h1 | h1
+    · subst h1
+      exact foldl_min_le_init _ t _
+    · exact foldl_min_le_mem (capArg budget own all) t _ 0 h1
+
+/-- the loop body of `ComputeCommands` for one pool: it does not panic, takes at most as many slots as the pool has
+    candidates, and touches only this pool's counter -/
+theorem computeOne_spec (args : List Nat) (hcap : 1 ∈ args) (all : Nat) (s : State) (P : PoolIn) :
+    ∃ g, (computeOne args all s P).2 = some g ∧ g ≤ P.cands.length ∧
+      (∀ x, (s.limits x).isSome = true → ((computeOne args all s P).1.limits x).isSome = true) ∧
+      (0 < g → ((computeOne args all s P).1.limits P.p).isSome = true) ∧
+      (∀ x, reservedOf (computeOne args all s P).1 x = if x = P.p then reservedOf s P.p + g else reservedOf s x) := by
+  unfold computeOne
+  simp only
+  split
+  · refine ⟨0, rfl, Nat.zero_le _, fun x hx => hx, fun h => absurd h (Nat.lt_irrefl 0), ?_⟩
+    intro x; split
+    · rename_i hx; subst hx; simp
+    · rfl
+  · have hw : (0 : Int) ≤ ((driftCap args P.budget P.cands.length all : Nat) : Int) := Int.natCast_nonneg _
+    obtain ⟨hg0, hgw⟩ := reserve_grant_bounds P.p s (nodeLimit P.limit) _ hw
+    have hcapLe := driftCap_le_own args P.budget P.cands.length all hcap
+    generalize hr : reserve s P.p (nodeLimit P.limit) ((driftCap args P.budget P.cands.length all : Nat) : Int) = r at *
+    have hle : r.2.toNat ≤ P.cands.length := by omega
+    have hnot : ¬ (r.2.toNat > P.cands.length) := by omega
+    simp only [hnot, if_false]
+    refine ⟨r.2.toNat, rfl, hle, ?_, ?_, ?_⟩
+    · intro x hx; rw [← hr]; exact limits_reserve_mono P.p s _ _ x hx
+    · intro _; rw [← hr]; exact limits_reserve_isSome P.p s _ _
+    · intro x
+      rw [← hr, reservedOf_reserve]
+      split
+      · rw [hr]; omega
+      · rfl
+
+/-! ### a whole pass -/
+
+/-- slots `ComputeCommands` took for pool `q` -/
+def owed (q : Name) : List (PoolIn × Nat) → Int
+  | [] => 0
+  | Pg :: rest => (if Pg.1.p = q then (Pg.2 : Int) else 0) + owed q rest
+
+theorem owed_nonneg (q : Name) (todo : List (PoolIn × Nat)) : 0 ≤ owed q todo := by
+  induction todo with
+  | nil => exact Int.le_refl 0
+  | cons Pg rest ih =>
+    simp only [owed]
+    split <;> omega
+
+theorem computeAll_spec (args : List Nat) (hcap : 1 ∈ args) (all : Nat) :
+    ∀ (pools : List PoolIn) (s : State), ∃ sA todo, computeAll args all s pools = (sA, some todo) ∧
+      (∀ Pg ∈ todo, Pg.2 ≤ Pg.1.cands.length ∧ (0 < Pg.2 → (sA.limits Pg.1.p).isSome = true)) ∧
+      (∀ x, (s.limits x).isSome = true → (sA.limits x).isSome = true) ∧
+      (∀ q, reservedOf sA q = reservedOf s q + owed q todo) ∧
+      todo.map (·.1) = pools := by
+  intro pools
+  induction pools with
+  | nil =>
+    intro s
+    refine ⟨s, [], rfl, ?_, fun _ h => h, ?_, rfl⟩
+    · intro Pg h; cases h
+    · intro q; simp [owed]
+  | cons P rest ih =>
+    intro s
+    obtain ⟨g, hg, hle, hmono, hsome, hres⟩ := computeOne_spec args hcap all s P
+    generalize hc : computeOne args all s P = c at *
+    obtain ⟨s1, og⟩ := c
+    simp only at hg hmono hsome hres
+    subst hg
+    obtain ⟨sA, todo, hA, hall, hmonoA, hresA, hmap⟩ := ih s1
+    refine ⟨sA, (P, g) :: todo, ?_, ?_, ?_, ?_, ?_⟩
+    · simp only [computeAll, hc, hA]
+    · intro Pg hPg
+      rcases List.mem_cons.mp hPg with h | h
+      · subst h
+        exact ⟨hle, fun hpos => hmonoA _ (hsome hpos)⟩
+      · exact hall Pg h
+    · intro x hx; exact hmonoA x (hmono x hx)
+    · intro q
+      rw [hresA q, hres q]
+      simp only [owed]
+      by_cases hq : q = P.p
+      · subst hq; simp; omega
+      · have : ¬ P.p = q := fun h => hq h.symm
+        simp only [hq, this, if_false]; omega
+    · simp [hmap]
+
+theorem startAll_spec :
+    ∀ (todo : List (PoolIn × Nat)) (s : State),
+      (∀ Pg ∈ todo, Pg.1.lost ≠ [] → Karp.Gen.C03Pool.startCommandReleasesEarly = true) →
+      (∀ Pg ∈ todo, Pg.2 ≤ Pg.1.cands.length ∧ (0 < Pg.2 → (s.limits Pg.1.p).isSome = true)) →
+      (∀ q, owed q todo ≤ reservedOf s q) →
+      (startAll s todo).panicked = false ∧ ∀ q, reservedOf (startAll s todo).st q = reservedOf s q - owed q todo := by
+  intro todo
+  induction todo with
+  | nil =>
+    intro s _ _ _
+    exact ⟨rfl, fun q => by simp [startAll, owed]⟩
+  | cons Pg rest ih =>
+    intro s hE hall howed
+    obtain ⟨P, g⟩ := Pg
+    obtain ⟨hle, hsome⟩ := hall (P, g) List.mem_cons_self
+    simp only at hle hsome
+    have hlen : (P.cands.take g).length = g := by
+      rw [List.length_take]; exact Nat.min_eq_left hle
+    have hown := howed P.p
+    simp only [owed, if_true] at hown
+    have hnn := owed_nonneg P.p rest
+    have hstart : (s.limits P.p).isSome = true ∨ P.cands.take g = [] := by
+      by_cases hg : 0 < g
+      · exact Or.inl (hsome hg)
+      · right
+        have : g = 0 := by omega
+        subst this; simp
+    obtain ⟨hp, hmono, hres⟩ := driftGoP_releases P.p g P.next P.lost P.createFail
+      (hE (P, g) List.mem_cons_self) (P.cands.take g) s 0 0 0 0 0 hstart (by rw [hlen]; omega)
+    simp only [startAll, hp, Bool.false_eq_true, if_false]
+    have := ih (driftGoP P.p g P.lost P.createFail P.next s 0 0 0 0 0 (P.cands.take g)).st
+      (fun Pg h => hE Pg (List.mem_cons_of_mem _ h))
+      (fun Pg h => ⟨(hall Pg (List.mem_cons_of_mem _ h)).1,
+        fun hpos => hmono _ ((hall Pg (List.mem_cons_of_mem _ h)).2 hpos)⟩)
+      (by
+        intro q
+        rw [hres q, hlen]
+        have hq := howed q
+        simp only [owed] at hq
+        by_cases hx : q = P.p
+        · subst hx; simp only [if_true] at hq ⊢; omega
+        · have : ¬ P.p = q := fun h => hx h.symm
+          simp only [hx, this, if_false] at hq ⊢; omega)
+    refine ⟨this.1, ?_⟩
+    intro q
+    rw [this.2 q, hres q, hlen]
+    simp only [owed]
+    by_cases hx : q = P.p
+    · subst hx; simp only [if_true]; omega
+    · have : ¬ P.p = q := fun h => hx h.symm
+      simp only [hx, this, if_false]; omega
+
+/-- a whole pass over any number of pools (any names, also repeated ones): nothing panics and every reserved counter is
+    back where it was -/
+theorem driftPass_gives_back (args : List Nat) (hcap : 1 ∈ args) (pools : List PoolIn) (s : State)
+    (hE : ∀ P ∈ pools, P.lost ≠ [] → Karp.Gen.C03Pool.startCommandReleasesEarly = true)
+    (h0 : ∀ q, 0 ≤ reservedOf s q) :
+    (driftPass args s pools).panicked = false ∧ ∀ q, reservedOf (driftPass args s pools).st q = reservedOf s q := by
+  obtain ⟨sA, todo, hA, hall, _, hres, hmap⟩ := computeAll_spec args hcap (totalCands pools) pools s
+  unfold driftPass
+  rw [hA]
+  simp only
+  have hE' : ∀ Pg ∈ todo, Pg.1.lost ≠ [] → Karp.Gen.C03Pool.startCommandReleasesEarly = true := by
+    intro Pg hPg
+    apply hE Pg.1
+    rw [← hmap]
+    exact List.mem_map_of_mem hPg
+  obtain ⟨hp, hr⟩ := startAll_spec todo sA hE' hall (by intro q; rw [hres q]; have := h0 q; omega)
+  refine ⟨hp, ?_⟩
+  intro q
+  rw [hr q, hres q]; omega
+
+/-- a drift round of the single pool `np` in which no `StartCommand` returns early: nothing panics and the reserved
+    counter is back where it was -/
+theorem driftRound_gives_back (hcap : 1 ∈ Karp.Gen.C03Pool.staticDriftCapArgs)
+    (s : State) (replicas : Int) (limit : Option Int) (budget : Nat) (cands createFail : List Nat)
     (next : Nat) (h0 : 0 ≤ reservedOf s np) :
     (driftRound s replicas limit budget cands [] createFail next).panicked = false ∧
     reservedOf (driftRound s replicas limit budget cands [] createFail next).st np = reservedOf s np := by
   unfold driftRound
   simp only
-  split
-  · exact ⟨rfl, rfl⟩
-  · rename_i hc
-    simp only [Bool.or_eq_true, decide_eq_true_eq, not_or] at hc
-    have hw : (0 : Int) ≤ ((min budget cands.length : Nat) : Int) := Int.natCast_nonneg _
-    obtain ⟨hg0, hgw⟩ := reserve_grant_bounds s (nodeLimit limit) _ hw
-    generalize hr : reserve s np (nodeLimit limit) ((min budget cands.length : Nat) : Int) = r at *
-    have hsome : (r.1.limits np).isSome = true := by rw [← hr]; exact limits_reserve_isSome s _ _
-    have hres : reservedOf r.1 np = reservedOf s np + r.2 := by
-      rw [← hr, reservedOf_reserve]; simp
-    have hlen : ((cands.take r.2.toNat).length : Int) = r.2 := by
-      rw [List.length_take]
-      have : r.2.toNat ≤ cands.length := by omega
-      rw [Nat.min_eq_left this]
-      omega
-    have := driftGo_releases r.2.toNat next createFail (cands.take r.2.toNat) r.1 0 0 0 0 0 hsome (by rw [hlen, hres]; omega)
-    refine ⟨this.1, ?_⟩
-    rw [this.2, hlen, hres]; omega
+  generalize hP : ({ p := np, replicas := replicas, limit := limit, budget := budget, cands := cands, lost := [],
+                     createFail := createFail, next := next } : PoolIn) = P
+  obtain ⟨g, hg, hle, _, hsome, hres⟩ := computeOne_spec Karp.Gen.C03Pool.staticDriftCapArgs hcap cands.length s P
+  generalize hc : computeOne Karp.Gen.C03Pool.staticDriftCapArgs cands.length s P = c at *
+  obtain ⟨s1, og⟩ := c
+  simp only at hg hsome hres
+  subst hg
+  have hPp : P.p = np := by rw [← hP]
+  have hPc : P.cands = cands := by rw [← hP]
+  rw [hPc] at hle
+  simp only [driftGo]
+  have hlen : (cands.take g).length = g := by rw [List.length_take]; exact Nat.min_eq_left hle
+  have hstart : (s1.limits np).isSome = true ∨ cands.take g = [] := by
+    by_cases hg : 0 < g
+    · left; rw [← hPp]; exact hsome hg
+    · right
+      have : g = 0 := by omega
+      subst this; simp
+  have hr1 : reservedOf s1 np = reservedOf s np + g := by
+    have := hres np; rw [hPp] at this; simpa using this
+  obtain ⟨hp, _, hr⟩ := driftGoP_releases np g next [] createFail (fun h => absurd rfl h) (cands.take g) s1 0 0 0 0 0 hstart
+    (by rw [hlen, hr1]; omega)
+  refine ⟨hp, ?_⟩
+  rw [hr np, hlen, hr1]; simp
 
 end Karp.StaticPool
